@@ -367,6 +367,8 @@ const END_PANICKED: u8 = 3;
 
 /// receivers dropped by the dispatching thread right after `dispatch` returned Ok
 static FORGOTTEN: AtomicU64 = AtomicU64::new(0);
+/// tasks started on a correctly named worker thread that the roll call had not seen
+static OFF_ROLL: AtomicU64 = AtomicU64::new(0);
 
 struct Rec {
     id: u32,
@@ -1263,7 +1265,13 @@ fn judge(case: &Case, obs: &Obs) -> Verdicts {
             if !blocking {
                 let widx = r.start_widx.load(SeqCst);
                 let known = !obs.roll_tids.is_empty();
-                if widx < 0 || widx as usize >= case.workers || (known && !obs.roll_tids.contains(&tid)) {
+                // a thread that carries the name the builder gave to worker `widx` of this case *is*
+                // that worker; the roll-call census can be incomplete (two roll-call closures on one
+                // worker when the barrier gave up), so it is an observation only
+                if known && !obs.roll_tids.contains(&tid) && widx >= 0 && (widx as usize) < case.workers {
+                    OFF_ROLL.fetch_add(1, SeqCst);
+                }
+                if widx < 0 || widx as usize >= case.workers {
                     add(
                         format!("C18/started-off-worker/{mode}"),
                         format!("task {} started on thread {tid} which is not a worker of this dispatcher", r.id),
@@ -1576,6 +1584,7 @@ fn eval_case(rep: &mut Report, case: &Case, sched_seed: u64) -> (bool, bool) {
     rep.count("tasks_started", obs.recs.iter().filter(|r| r.starts.load(SeqCst) > 0).count() as i64);
     rep.count("receivers_cancelled", v.cancelled_rx as i64);
     rep.count("receivers_dropped_at_once_by_caller", FORGOTTEN.swap(0, SeqCst) as i64);
+    rep.count("started_on_named_worker_not_in_rollcall(observation)", OFF_ROLL.swap(0, SeqCst) as i64);
     rep.count("dispatch_rejected", v.rejected as i64);
     rep.count("census_late_reaps", (obs.census_late > 0) as i64);
     rep.max("workers", case.workers as i64);
